@@ -308,6 +308,12 @@ pub fn run(ctx: Arc<Ctx>) {
 	ctx.outcome_n("filter chains", chains.len() as u64);
 	// invalid arguments: Err at build time, never a panic
 	let fac = pipeline::factory(vec![MemSource::new("m", tiles.clone(), TileFormat::BIN, TileCompression::Uncompressed)], &work.0);
+	let fac_pbf = {
+		let mut t = TileMap::new();
+		t.insert((0, 0, 0), crate::mvt::encode_tile(&super::c10::catalogue()[0].1));
+		t.insert((3, 1, 2), crate::mvt::encode_tile(&super::c10::catalogue()[0].1));
+		pipeline::factory(vec![MemSource::new("m", t, TileFormat::PBF, TileCompression::Uncompressed)], &work.0)
+	};
 	let invalid = [
 		"filter_bbox bbox=[10,0,5,1]",
 		"filter_bbox bbox=[0,10,1,5]",
@@ -334,6 +340,40 @@ pub fn run(ctx: Arc<Ctx>) {
 		"filter_zoom min=1 min=2",
 		"filter_bbox bbox=[0,0,20,20] bbox=[-180,-85,180,85]",
 	];
+	// every invalid stage in every position a stage can stand in: directly behind the source, behind a filter that
+	// keeps tiles, behind filters that keep nothing (an empty range, a box without tiles), before a valid stage, and
+	// inside each member of overlays / merges of two and three sources
+	let src0 = "from_container filename=\"mem:0\"";
+	let mut placed: Vec<String> = vec![];
+	for inv in invalid {
+		for pre in ["", " | filter_zoom max=3", " | filter_zoom min=5 max=3", " | filter_zoom min=40", " | filter_bbox bbox=[100,50,101,51] | filter_zoom min=9"] {
+			for post in ["", " | filter_zoom max=5"] {
+				let chain = format!("{src0}{pre} | {inv}{post}");
+				placed.push(chain.clone());
+				if pre.is_empty() || pre == " | filter_zoom min=5 max=3" {
+					for outer in ["from_overlayed", "from_vectortiles_merged"] {
+						placed.push(format!("{outer} [ {chain}, {src0} ]"));
+						placed.push(format!("{outer} [ {src0}, {chain} ]"));
+						placed.push(format!("{outer} [ {chain}, {src0}, {src0} ]"));
+						placed.push(format!("{outer} [ {src0}, {chain}, {src0} ]"));
+						placed.push(format!("{outer} [ {src0}, {src0}, {chain} ]"));
+					}
+				}
+			}
+		}
+	}
+	for vpl in &placed {
+		ctx.eval();
+		match pipeline::build_op(&rt, &fac_pbf, vpl) {
+			Err(e) => {
+				if let Some(p) = e.strip_prefix("PANIC ") {
+					ctx.violation(&format!("an invalid filter argument panics instead of being reported at {}", panic_site(p)), &format!("{vpl}: {p}"), json!({"vpl": vpl}));
+				}
+			}
+			Ok(_) => ctx.violation("an invalid filter argument is accepted", vpl, json!({"vpl": vpl})),
+		}
+	}
+	ctx.outcome_n("invalid argument texts x positions (behind filters that keep everything / something / nothing, inside overlays and merges of 2 and 3 sources)", placed.len() as u64);
 	for inv in invalid {
 		let vpl = format!("from_container filename=\"mem:0\" | {inv}");
 		ctx.eval();
